@@ -224,19 +224,34 @@ func csamples(ts []int64, vals []float64) string {
 	return "(smp " + ilist(out) + ")"
 }
 
+func coval(v OVal) string {
+	switch v.Kind {
+	case "str":
+		return "(OStr " + cstr(v.S) + ")"
+	case "bool":
+		return "(OBool " + strconv.FormatBool(v.B) + ")"
+	case "int":
+		return "(OInt " + cz(v.I) + ")"
+	case "double":
+		return "(ODouble " + cn(v.F) + ")"
+	case "bytes":
+		return "(OBytes " + cstr(v.S) + ")"
+	case "arr":
+		xs := make([]string, len(v.Items))
+		for i, x := range v.Items {
+			xs[i] = coval(x)
+		}
+		return "(OArr " + clist(xs) + ")"
+	case "kv":
+		return "(OKv " + cokvs(v.KVs) + ")"
+	}
+	return "ONone"
+}
+
 func cokvs(l []OKV) string {
 	xs := make([]string, len(l))
 	for i, kv := range l {
-		v := "ONone"
-		switch kv.V.Kind {
-		case "str":
-			v = "OStr " + cstr(kv.V.S)
-		case "bool":
-			v = "OBool " + strconv.FormatBool(kv.V.B)
-		case "int":
-			v = "OInt " + cz(kv.V.I)
-		}
-		xs[i] = "(" + cstr(kv.K) + ", " + v + ")"
+		xs[i] = "(" + cstr(kv.K) + ", " + coval(kv.V) + ")"
 	}
 	return clist(xs)
 }
@@ -345,7 +360,14 @@ func coqBody(c *Case) string {
 			for j, s := range r.Scopes {
 				recs := make([]string, len(s.Records))
 				for k, rec := range s.Records {
-					recs[k] = fmt.Sprintf("OR %s %s %s %s", cokvs(rec.Attrs), cstr(rec.Severity), copt(rec.Body), cn(rec.Ts))
+					body := "ONone"
+					if rec.Body != nil {
+						body = "(OStr " + cstr(*rec.Body) + ")"
+					}
+					if rec.BodyV != nil {
+						body = coval(*rec.BodyV)
+					}
+					recs[k] = fmt.Sprintf("OR %s %s %s %s", cokvs(rec.Attrs), cstr(rec.Severity), body, cn(rec.Ts))
 				}
 				ss[j] = fmt.Sprintf("OS %t %s %s", s.HasScope, cokvs(s.Attrs), clist(recs))
 			}
